@@ -5,7 +5,12 @@ NOTES = ("Every check is `bin/check <id> <tier>`: it rebuilds libCellML from /re
          "(clang ASan+UBSan, -DLIBCELLML_VERIF), rebuilds the harness, runs generated-input search against an explicit oracle, replays and "
          "triages failures, writes evidence/<id>.json. Known findings live in known_findings.json; see DESIGN.md.")
 ENGINES = [
-    {"name": "rapidcheck-tape", "path": "kit/main.cpp", "serves_properties": ["C02"], "kind_free_text": "rapidcheck generates choice tapes (vector<uint32>) consumed by imperative generators; rapidcheck + own reducer shrink the tape; replay file = tape"},
+    {"name": "rapidcheck-tape", "path": "kit/main.cpp", "serves_properties": ["C02", "C03", "C05", "C06", "C09", "C10", "C11", "C12", "C13", "C14", "C15", "C16", "C17", "C18", "C19", "C20", "C04", "C07", "C08"],
+     "kind_free_text": "rapidcheck generates choice tapes (vector<uint32>) consumed by imperative generators (kit/gen.cpp, kit/gt.cpp, property-specific ones); rapidcheck and an own reducer shrink the tape; replay file = tape (bin/replay)"},
+    {"name": "exhaustive-tape", "path": "kit/main.cpp (--mode ex), kit/tape.h ExhaustiveSrc", "serves_properties": ["C03", "C07", "C09", "C16"],
+     "kind_free_text": "depth-first enumeration of every choice sequence of a bounded generator (the same generator code as the random driver)"},
+    {"name": "libfuzzer-asan", "path": "kit/fuzz_main.cpp, bin/fuzzstage.py", "serves_properties": ["C01"],
+     "kind_free_text": "libFuzzer (clang 14, ASan+UBSan) campaigns with the semantic oracle inside the target; byte-level and tape-decoded structure-aware targets; artifacts triaged by signature"},
 ]
 NOT_CLAIMED = {}
 import plans as _plans
